@@ -432,7 +432,14 @@ func verifC11g() { // a value decorator with a soft group parameter above a scop
 		regKinds: []int{vCtor, vCtor, vDecor, vDecor}, regScopes: []int{0, 0, 0, 1}, scopesFirst: true, faults: 1, nInvokes: 1, invParams: 1, objOnly: true})
 }
 
-func init() { verifEntries["verifC11g"] = verifC11g }
+func verifC11h() { // C11g with the decorator shapes fixed: a value decorator with a soft group parameter in the root, a plain decorator below
+	verifRunProfile(&vProfile{name: "C11h", clauses: append([]string{"C01.arg"}, vC11...),
+		maxScopes: 2, nRegs: 4, maxParams: 0, maxResults: 1, pForms: 2, rForms: 2, names: 1, groups: true, soft: true, decorators: 2, decor2: true, decorSoft: true,
+		regKinds: []int{vCtor, vCtor, vDecor, vDecor}, regScopes: []int{0, 0, 0, 1}, regDShape: []int{-1, -1, 5, 0}, scopesFirst: true,
+		faults: 1, nInvokes: 1, invParams: 1, objOnly: true, allAccepted: true})
+}
+
+func init() { verifEntries["verifC11g"] = verifC11g; verifEntries["verifC11h"] = verifC11h }
 
 func verifC03g() { // a value group decorated at two levels: an outer decorator the inner one does not consume is not run
 	verifRunProfile(&vProfile{name: "C03g", clauses: vC03,
